@@ -256,9 +256,11 @@ def run(ctx, ck):
     # decided on the symbolic walk of compute_tags (loops entered once, elements bound) and, for the
     # running automatic tag, on the loop body as a state transformer
     import re
-    from ..symx import SymExec, loop_transformer
+    from ..symx import SymExec, loop_transformer, copy_replace
     from ..poly import poly_roles, cancel, Poly
-    tpaths = SymExec(ctx, ct, bind_loops=True, max_paths=2000).run()
+    se_ = SymExec(ctx, ct, bind_loops=True, max_paths=2000)
+    se_.raises = True           # a validation helper that raises ends compute_tags
+    tpaths = se_.run()
     E = lambda t_: re.sub(r'self\.geo\[_k\d+\]', 'E', t_)
     # (a) validation of explicit tags
     rej = set()
@@ -276,8 +278,13 @@ def run(ctx, ck):
             rej.add('tag already seen')
         else:
             rej.add('%s is %s' % last)
+    from ..rules import self_closure
+    hpaths = list(tpaths)
+    for h_ in self_closure(ctx, ct):
+        if h_.qual != ct.qual:
+            hpaths += SymExec(ctx, h_, bind_loops=True, max_paths=2000).run()
     seen_add = any(E(norm(c_)) in ('tags_seen.add(E.tag)',) or re.match(r'^\w+\.add\(E\.tag\)$', E(norm(c_)))
-                   for p_ in tpaths if p_.end != 'raise' for c_, st_ in p_.calls)
+                   for p_ in hpaths if p_.end != 'raise' for c_, st_ in p_.calls)
     ok = rej == {'tag <= 0', 'tag already seen'} and seen_add
     ck.ob('R-TAGS.compute_tags', ct.qual + '|validation', ok, ct.loc(),
           'rejects %s; accepted explicit tags are remembered' % sorted(rej))
@@ -289,11 +296,30 @@ def run(ctx, ck):
         for k_, v_, st_ in p_.stores:
             if re.match(r'^self\.geo\[_k\d+\]\.tag$', k_):
                 have = [b_ for t_, b_ in p_.conds if isinstance(b_, bool) and re.match(r'^\w+$', t_)]
+                # max(X, default=0): the largest explicit tag, 0 without any (max of the empty set
+                # with a default is the default)
+                guarded = []
+
+                def dflt(x_):
+                    if isinstance(x_, ast.Call) and isinstance(x_.func, ast.Name) and x_.func.id == 'max' and \
+                       len(x_.args) == 1 and [k_.arg for k_ in x_.keywords] == ['default'] and \
+                       isinstance(x_.keywords[0].value, ast.Constant) and x_.keywords[0].value.value == 0:
+                        a_ = x_.args[0]
+                        if isinstance(a_, ast.Call) and isinstance(a_.func, ast.Name) and a_.func.id == 'set' and not a_.args:
+                            return ast.Constant(value=0)
+                        if isinstance(a_, ast.Name):
+                            guarded.append(a_.id)
+                            return ast.Call(func=x_.func, args=[ast.Name(id='tags_seen', ctx=ast.Load())], keywords=[])
+                    return None
+                v2_ = copy_replace(v_, dflt)
                 try:
-                    pol = cancel(poly_roles(v_, {}))
+                    pol = cancel(poly_roles(v2_, {}))
                 except ValueError:
                     pol = None
-                firsts.add((have[-1] if have else None, repr(pol)))
+                h_ = have[-1] if have else None
+                if guarded:
+                    h_ = True       # the empty case is covered by the default
+                firsts.add((h_, repr(pol)))
     want_first = {(True, repr(cancel(poly_roles(ast.parse('max(tags_seen) + 1', mode='eval').body, {})))),
                   (False, repr(Poly.const(1))), (None, repr(Poly.const(1)))}
     ok = bool(firsts) and firsts <= want_first and any(h_ is True for h_, _ in firsts)
@@ -362,6 +388,17 @@ def run(ctx, ck):
         k = kw.get('key')
         if isinstance(k, ast.Lambda) and len(k.args.args) == 1:
             return norm(k.body) == '%s.tag' % k.args.args[0].arg
+        # a named key function: its closed return value is <parameter>.tag
+        kf = None
+        if isinstance(k, ast.Attribute) and isinstance(k.value, ast.Name) and k.value.id in ('self', 'cls') and ct.cls is not None:
+            kf = m.resolve_method(ct.cls.name, k.attr)
+        elif isinstance(k, ast.Name):
+            kf = m.funcs.get('%s.%s' % (ct.module.name, k.id))
+        if kf is not None:
+            from ..symx import closed_returns
+            ps_ = [a_.arg for a_ in kf.node.args.args if a_.arg not in ('self', 'cls')]
+            rets = {norm(r_) for c_2, r_ in closed_returns(ctx, kf)}
+            return len(ps_) == 1 and rets == {'%s.tag' % ps_[0]}
         return k is not None and norm(k) in ("operator.attrgetter('tag')", "attrgetter('tag')")
     ok = True
     n_ok = 0
